@@ -219,6 +219,43 @@ pub fn run(cfg: &Cfg) {
             sink.oracle(again == first, "verdict changed under a permutation of signatures / keys", "see preceding vblock ops of this run");
         }
     }
+    // ---- authorized keys as a consumer obtains them: read from key descriptions (a layout's key table,
+    //      a key file). One key described twice - once truthfully, once with another `keyid` member,
+    //      other hash-algorithm list or other member order - is still one key: its signature, listed
+    //      under every id involved, counts once.
+    for k in pool.iter() {
+        let truthful = serde_json::to_value(k.public()).unwrap();
+        let own_id = keyid_hex(k.public());
+        let mut variants: Vec<Value> = vec![];
+        for fake in [keyid_hex(u.public()), "cd".repeat(32), own_id.to_uppercase()] {
+            let mut v = truthful.clone();
+            v["keyid"] = Value::String(fake);
+            variants.push(v);
+        }
+        let mut v = truthful.clone();
+        v.as_object_mut().unwrap().remove("keyid");
+        variants.push(v);
+        for v in variants {
+            let parsed: PublicKey = match guarded({ let v2 = v.clone(); move || serde_json::from_value::<PublicKey>(v2) }) {
+                Ok(Ok(p)) => p,
+                _ => continue,
+            };
+            let sig = valid_sig(&meta, k);
+            let ids: BTreeSet<String> = [own_id.clone(), keyid_hex(&parsed), v.get("keyid").and_then(|x| x.as_str()).unwrap_or(&own_id).to_string()].into_iter().filter(|x| x.len() == 64).collect();
+            let entries: Vec<Entry> = ids.iter().map(|id| Entry { label: id.clone(), sig: sig.clone(), valid_under_label: *id == own_id, class: "alias" }).collect();
+            let j = block_json(&meta, &entries);
+            let mb: Metablock = match serde_json::from_value(j.clone()) {
+                Ok(m) => m,
+                Err(_) => continue,
+            };
+            let keys = vec![k.public().clone(), parsed.clone()];
+            let res = guarded(move || mb.verify(2, keys.iter()).is_ok());
+            sink.stat(&format!("described-twice/{}", match res { Ok(true) => "ACCEPTED", Ok(false) => "rejected", Err(()) => "panic" }));
+            sink.oracle(res == Ok(false), "one key described twice (another keyid member) is counted as two signers", &format!("key {} description {} block {}", k.label, v, j));
+            // and the key read from a description is the key: same id, equal value
+            sink.oracle(keyid_hex(&parsed) == own_id && parsed == *k.public(), "a key read from its description has another id than its material determines", &format!("key {} description {}", k.label, v));
+        }
+    }
     // ---- duplicate key id with different validity: recorded observation (outside the statement)
     let dup = vec![mk(a, true), mk(a, false)];
     let pud = vec![mk(a, false), mk(a, true)];
